@@ -109,7 +109,7 @@ var _ flows.Modifier = (*GroupsModifier)(nil)
 
 type groupsModifierEnvelope struct {
 	utils.TypedEnvelope
-	Groups       []*assets.GroupReference `json:"groups" validate:"required,dive"`
+	Groups       []*assets.GroupReference `json:"groups" validate:"required,dive,required"`
 	Modification GroupsModification       `json:"modification" validate:"eq=add|eq=remove"`
 }
 
